@@ -520,7 +520,32 @@ func gen(r *prng.R, f proto.Flags, emitAll func(proto.Case)) {
 				ops = append(ops, op)
 			}
 		}
+		if k%4 == 1 { // in-memory observation with exact (millisecond) timestamps
+			ops = append(ops, fmt.Sprintf("runmem cuts=%s", join(randomCuts(rr, s.n))))
+		}
 		id++
 		emit(proto.Case{ID: fmt.Sprintf("g%d", id), Ops: ops})
+		if k%12 == 7 {
+			// nanosecond-resolution timestamps (> 2^53): only the in-memory path can show them (the persisted layout
+			// cannot), every splitting must keep the exact extremes
+			ns := genStream(rr, 14, "single")
+			var nops []string
+			for j, l := range ns.recs {
+				w := strings.Fields(l)
+				w[1] = fmt.Sprintf("ts=%d", int64(1_700_000_000_000_000_000)+int64(rr.Intn(2_000_000))*int64(1+j%3))
+				nops = append(nops, strings.Join(w, " "))
+			}
+			ns.recs = nops
+			nsOps := ns.header()
+			nsOps = append(nsOps, "runmem cuts=-")
+			all := make([]int, 0, ns.n)
+			for i := 1; i < ns.n; i++ {
+				all = append(all, i)
+			}
+			nsOps = append(nsOps, fmt.Sprintf("runmem cuts=%s", join(all)))
+			nsOps = append(nsOps, fmt.Sprintf("runmem cuts=%s", join(randomCuts(rr, ns.n))))
+			id++
+			emit(proto.Case{ID: fmt.Sprintf("n%d", id), Ops: nsOps})
+		}
 	}
 }
